@@ -1,4 +1,5 @@
 import QuinnModel.Udp.Layout
+import QuinnModel.Udp.Send
 import QuinnModel.Util
 /- Line-protocol front end for the UDP layer model (component `udp`). -/
 namespace QM.Drv
@@ -30,6 +31,15 @@ def udp : List String → String
       let ws := Udp.wireDatagrams (List.replicate len ()) (Udp.effectiveSegmentSize seg len)
       ",".intercalate (ws.map fun w => toString w.length)
     | _, _ => "bad-op"
+  | ["refused", v4, maxGso, einval, seg, len] =>
+    -- one `UdpSocketState::send` on a socket whose kernel path answers EINVAL to every UDP_SEGMENT message
+    match v4.toNat?, maxGso.toNat?, einval.toNat?, seg.toNat?, len.toNat? with
+    | some v4, some g, some e, some seg, some len =>
+      let _ := Gen.sendGsoFallbackShapeChecked
+      let r := Udp.send Udp.gsoRefusingKernel ⟨v4 == 1, some seg, len⟩ 8 ⟨g, e == 1⟩ 0
+      let lens := if r.wire.isEmpty then "-" else ",".intercalate (r.wire.map toString)
+      s!"{if Udp.publicOk r then "ok" else "err"} {lens} {r.st.maxGso} {if r.st.einval then 1 else 0}"
+    | _, _, _, _, _ => "bad-op"
   | _ => "bad-op"
 
 end QM.Drv
